@@ -28,10 +28,6 @@ import MxModel.Props.C05Staking
 namespace Mx.C05StakingCover
 open Mx.Staking
 
-abbrev reach (epoch block dsc maxApr minUnbond perBlock : Nat) (accts wl : List Nat)
-    (ops : List Op) : St :=
-  run (init epoch block dsc maxApr minUnbond perBlock accts wl) ops
-
 /-- one successful transaction keeps the boosted-pool conservation bound -/
 theorem boost_step {s s' : St} {op : Op} {o : Out} (hI : BoostInv s) (h : step s op = some (s', o)) :
     BoostInv s' :=
@@ -43,7 +39,7 @@ theorem boost_step {s s' : St} {op : Op} {o : Out} (hI : BoostInv s) (h : step s
     settlements. -/
 theorem boosted_pools_bound (epoch block dsc maxApr minUnbond perBlock : Nat) (accts wl : List Nat)
     (ops : List Op) (N : Nat) :
-    let s := reach epoch block dsc maxApr minUnbond perBlock accts wl ops
+    let s := run (init epoch block dsc maxApr minUnbond perBlock accts wl) ops
     ((List.range N).map fun w => s.b.accumulated w + s.b.remaining w).sum
       + s.undistributed + s.paidBoosted ≤ s.boostedBudget :=
   (run_boostInv ops (boostInv_init epoch block dsc maxApr minUnbond perBlock accts wl)).explicit N
@@ -52,7 +48,7 @@ theorem boosted_pools_bound (epoch block dsc maxApr minUnbond perBlock : Nat) (a
     budget is overspent -/
 theorem reserve_is_unspent (epoch block dsc maxApr minUnbond perBlock : Nat) (accts wl : List Nat)
     (ops : List Op) (hd : 0 < dsc) :
-    let s := reach epoch block dsc maxApr minUnbond perBlock accts wl ops
+    let s := run (init epoch block dsc maxApr minUnbond perBlock accts wl) ops
     s.paidBase ≤ s.baseBudget ∧ s.paidBoosted ≤ s.boostedBudget ∧
     s.reserve = (s.baseBudget - s.paidBase) + (s.boostedBudget - s.paidBoosted) :=
   reserve_split (run_inv ops (inv_init epoch block dsc maxApr minUnbond perBlock accts wl))
@@ -79,7 +75,7 @@ theorem reserve_covers : Mx.C05Staking.reserve_covers_full := by
     add up to), all boosted pools not yet paid out, and the undistributed boosted rewards. -/
 theorem reserve_covers_claimable (epoch block dsc maxApr minUnbond perBlock : Nat) (accts wl : List Nat)
     (ops : List Op) (hd : 0 < dsc) (N : Nat) :
-    let s := reach epoch block dsc maxApr minUnbond perBlock accts wl ops
+    let s := run (init epoch block dsc maxApr minUnbond perBlock accts wl) ops
     ((List.range (s.nonce + 1)).map fun n =>
         match s.md n with
         | some (.pos a) => (s.accts.dedup.map fun u => s.hold u n).sum * (s.rps - a.rps) / s.dsc
@@ -96,7 +92,7 @@ theorem reserve_covers_claimable (epoch block dsc maxApr minUnbond perBlock : Na
     oracle `reserve_covers` evaluates on the real contract -/
 theorem reserve_covers_holdings (epoch block dsc maxApr minUnbond perBlock : Nat) (accts wl : List Nat)
     (ops : List Op) (hd : 0 < dsc) (N : Nat) :
-    let s := reach epoch block dsc maxApr minUnbond perBlock accts wl ops
+    let s := run (init epoch block dsc maxApr minUnbond perBlock accts wl) ops
     ((List.range (s.nonce + 1)).map fun n =>
         match s.md n with
         | some (.pos a) => (s.accts.dedup.map fun u => s.hold u n * (s.rps - a.rps) / s.dsc).sum
@@ -114,7 +110,7 @@ theorem reserve_covers_holdings (epoch block dsc maxApr minUnbond perBlock : Nat
     position in week 2, more rewards accrue in week 2 (`accumulated 2`).  Claimable base
     10312 + 20625, pools 2500 + 1250: 34687 ≤ reserve 34688 (one unit lost to a floor). -/
 example :
-    let s := reach 5 10 1000000000000 1000000 5 5000 [1, 2, 101] [101]
+    let s := run (init 5 10 1000000000000 1000000 5 5000 [1, 2, 101] [101])
       [.topUp 100000000, .setBoostedPct 2500, .setFactors ⟨10, 3, 2, 1, 1⟩, .setEnergy 1 10000 100,
        .stake 1 none 100000000000 [], .stake 2 none 100000000000 [], .advance 10 0,
        .claimBoosted 1 none, .advance 1 7, .claim 1 none (1, 50000000000), .advance 5 0]
